@@ -221,7 +221,11 @@ impl<T: ContentType> State<T> {
                         header.properties,
                     )))
                 } else {
-                    let buf = Vec::with_capacity(header.body_size as usize);
+                    // The announced size comes from the peer and can be anything up to
+                    // 2^64-1: use it as a hint only, the buffer grows as body frames arrive.
+                    const MAX_PREALLOCATION: u64 = 1 << 20;
+                    let buf =
+                        Vec::with_capacity(u64::min(header.body_size, MAX_PREALLOCATION) as usize);
                     Ok(Content::NeedMore(State::Body(start, header, buf)))
                 }
             }
